@@ -4,7 +4,8 @@
    Theory/Rebase.v, Theory/RebaseCodec.v, Theory/DagTopoFacts.v.
 
    g is ANY well-formed revision graph (any size and shape: merges, criss-cross,
-   ghosts, several roots).  [simple_plan g gen todo_set order start stop onto skip]
+   ghosts, several roots); theorems without the wf_dag hypothesis hold for every
+   parent table whatsoever.  [simple_plan g gen todo_set order start stop onto skip]
    models generate_simple_plan; [order] is what topo_sort returned for the
    parent map of todo_set -- an environment value, constrained only by
    [topo_sortedb] / [topo_order_of] (no revision precedes one of its parents);
@@ -15,7 +16,8 @@
    todo_set = find_difference(tip, onto)[0] = ancestry(tip) \ ancestry(onto). *)
 From Coq Require Import NArith List Arith Bool.
 From BV Require Import Lib.Bytes Lib.Dag Lib.DagTopo Theory.DagFacts Theory.DagTopoFacts
-  Model.Rebase Theory.Rebase Model.RebaseCodec Theory.RebaseCodec.
+  Model.Rebase Theory.Rebase Model.RebaseCodec Theory.RebaseCodec
+  Lib.PyDict Model.RebaseTranspose Theory.RebaseTranspose.
 Import ListNotations.
 Close Scope N_scope.
 
@@ -56,8 +58,7 @@ Print Assumptions C51_plan_succeeds.
 (* any todo_set, start, stop: the keys are the slice order[index(start) : index(stop)+1]
    ([replayed]), in that order *)
 Theorem C51_domain_slice :
-  forall g gen, wf_dag g = true ->
-  forall todo_set order start stop onto m,
+  forall g gen todo_set order start stop onto m,
   topo_sortedb g order = true ->
   simple_plan g gen todo_set order start stop onto false = Ok m ->
   replayed order start stop (map fst m).
@@ -67,8 +68,7 @@ Print Assumptions C51_domain_slice.
 (* with skip_full_merged ("modulo skip_full_merged"): a subsequence of the
    slice; only merge revisions are dropped *)
 Theorem C51_domain_skip_full_merged :
-  forall g gen, wf_dag g = true ->
-  forall todo_set order start stop onto skip m,
+  forall g gen todo_set order start stop onto skip m,
   topo_sortedb g order = true ->
   simple_plan g gen todo_set order start stop onto skip = Ok m ->
   exists todo f, replayed order start stop todo /\ map fst m = filter f todo /\
@@ -112,8 +112,7 @@ Print Assumptions C51_parents_ordered_guarded.
 
 (* what still holds with skip_full_merged: ... or an old parent not rewritten earlier *)
 Theorem C51_parents_ordered_partial :
-  forall g gen, wf_dag g = true ->
-  forall todo_set order start stop onto skip m m1 old new ps m2,
+  forall g gen todo_set order start stop onto skip m m1 old new ps m2,
   topo_sortedb g order = true ->
   simple_plan g gen todo_set order start stop onto skip = Ok m ->
   m = m1 ++ (old, (new, ps)) :: m2 ->
@@ -129,8 +128,7 @@ Print Assumptions C51_parents_ordered_partial.
    plan order: every new parent that is the new id of a plan entry is either in
    the repository already or that entry is listed earlier *)
 Theorem C51_rebase_todo_dependencies_first :
-  forall g gen, wf_dag g = true ->
-  forall todo_set order start stop onto skip m has m1 old new ps m2,
+  forall g gen todo_set order start stop onto skip m has m1 old new ps m2,
   topo_sortedb g order = true ->
   simple_plan g gen todo_set order start stop onto skip = Ok m ->
   m = m1 ++ (old, (new, ps)) :: m2 ->
@@ -160,8 +158,7 @@ Print Assumptions C51_any_topological_order_dependencies_first.
 (* an injective generate_revid gives pairwise different new ids (and the old
    ids are pairwise different too) *)
 Theorem C51_new_ids_distinct :
-  forall g gen, wf_dag g = true ->
-  forall todo_set order start stop onto skip m,
+  forall g gen todo_set order start stop onto skip m,
   (forall r r' ps ps', gen r ps = gen r' ps' -> r = r') ->
   topo_sortedb g order = true ->
   simple_plan g gen todo_set order start stop onto skip = Ok m ->
@@ -188,6 +185,17 @@ Example C51_example :
   = Ok [(3, (103, [2])); (4, (104, [103])); (5, (105, [104]))] /\
   rebase_todo (fun r => r =? 103) [(3, (103, [2])); (4, (104, [103])); (5, (105, [104]))] = [4; 5].
 Proof. repeat split; reflexivity. Qed.
+
+(* generate_transpose_plan (modelled in Model/RebaseTranspose.v and tied by the
+   correspondence run): PARTIAL -- only this is proved: the renamed revisions are
+   replaced, never rewritten.  Missing: characterisation of the plan's domain
+   (descendants of the renamed revisions) and of the substituted parents. *)
+Theorem C51_transpose_renamed_not_rewritten_partial :
+  forall g gen ancestry renames rm,
+  transpose_plan g gen ancestry renames = TOk rm ->
+  forall r, dict_mem Nat.eqb renames r = true -> ~ In r (map fst rm).
+Proof. exact transpose_renamed_not_keys. Qed.
+Print Assumptions C51_transpose_renamed_not_rewritten_partial.
 
 (* ---- clause 3: the plan survives being saved and loaded ---------------------------- *)
 
